@@ -213,7 +213,11 @@ impl PartialOrdSpecImpl for R {
 pub uninterp spec fn sqrt_spec(a: real) -> real;
 pub broadcast axiom fn ax_sqrt(x: real) requires x >= 0real ensures #[trigger] sqrt_spec(x) >= 0real, rmul(sqrt_spec(x), sqrt_spec(x)) == x;
 pub broadcast proof fn lemma_sqrt_pos(x: real) ensures x > 0real ==> #[trigger] sqrt_spec(x) > 0real {
-    if x > 0real { ax_sqrt(x); if sqrt_spec(x) == 0real { assert(rmul(sqrt_spec(x), sqrt_spec(x)) == 0real); } }
+    if x > 0real {
+        ax_sqrt(x);
+        let r = sqrt_spec(x);
+        if r == 0real { assert(r * r == 0real) by(nonlinear_arith) requires r == 0real; assert(rmul(r, r) == r * r); }
+    }
 }
 pub uninterp spec fn ln_spec(a: real) -> real;
 pub uninterp spec fn exp_spec(a: real) -> real;
